@@ -871,3 +871,656 @@ theorem decodeDatetimeBase_timeZ (g : Grammar) (hg : TimeTablesOK6 g = true) (h 
     rw [firstSome_cons_some _ _ _ _ (strptime_HMSfZ h mi s us hh hm hs hus)]
 
 end Pvl
+
+namespace Pvl
+open Py Enc
+
+/-! ### generic facts about the back-tracking matcher -/
+
+theorem matchCCs_drop (a : Alt) (s m rest : Str) (h : matchCCs a s = some (m, rest)) :
+    rest = s.drop a.length ∧ a.length ≤ s.length := by
+  induction a generalizing s m rest with
+  | nil => simp [matchCCs] at h; exact ⟨by simp [h.2], by simp⟩
+  | cons cc r ih =>
+    cases s with
+    | nil => simp [matchCCs] at h
+    | cons c t =>
+      simp only [matchCCs] at h
+      split at h
+      · cases hr : matchCCs r t with
+        | none => simp [hr] at h
+        | some p =>
+          obtain ⟨m', rest'⟩ := p
+          simp [hr] at h
+          obtain ⟨_, rfl⟩ := h
+          have := ih t m' rest' hr
+          exact ⟨by simpa using this.1, by simp; exact this.2⟩
+      · cases h
+
+/-- an item fails if the rest of the pattern fails after every way of splitting off one of its
+    alternatives -/
+theorem matchAlts_none_of_drops (f : Field) (alts : List Alt) (r : List Item) (s : Str)
+    (h : ∀ a ∈ alts, matchItems r (s.drop a.length) = none) : matchAlts f alts r s = none := by
+  induction alts with
+  | nil => exact matchAlts_nil f r s
+  | cons a as ih =>
+    cases hm : matchCCs a s with
+    | none => rw [matchAlts_skip _ _ _ _ _ hm]; exact ih (fun x hx => h x (by simp [hx]))
+    | some p =>
+      obtain ⟨m, rest⟩ := p
+      have hd := (matchCCs_drop a s m rest hm).1
+      rw [matchAlts_cont_none _ _ _ _ _ m rest hm (by rw [hd]; exact h a (by simp))]
+      exact ih (fun x hx => h x (by simp [hx]))
+
+/-- a successful item used one of its alternatives -/
+theorem matchAlts_some (f : Field) (alts : List Alt) (r : List Item) (s : Str) (caps : List (Field × Str))
+    (fin : Str) (h : matchAlts f alts r s = some (caps, fin)) :
+    ∃ a ∈ alts, a.length ≤ s.length ∧ ∃ caps', matchItems r (s.drop a.length) = some (caps', fin) := by
+  induction alts with
+  | nil => rw [matchAlts_nil] at h; cases h
+  | cons a as ih =>
+    cases hm : matchCCs a s with
+    | none =>
+      rw [matchAlts_skip _ _ _ _ _ hm] at h
+      obtain ⟨x, hx, hr⟩ := ih h
+      exact ⟨x, by simp [hx], hr⟩
+    | some p =>
+      obtain ⟨m, rest⟩ := p
+      obtain ⟨hd, hl⟩ := matchCCs_drop a s m rest hm
+      cases hk : matchItems r rest with
+      | none =>
+        rw [matchAlts_cont_none _ _ _ _ _ m rest hm hk] at h
+        obtain ⟨x, hx, hr⟩ := ih h
+        exact ⟨x, by simp [hx], hr⟩
+      | some q =>
+        obtain ⟨caps', fin'⟩ := q
+        rw [matchAlts_first _ _ _ _ _ m rest fin' caps' hm hk] at h
+        simp only [Option.some.injEq, Prod.mk.injEq] at h
+        exact ⟨a, by simp, hl, caps', by rw [← hd, hk, h.2]⟩
+
+/-- the longest text an item can consume -/
+def maxAlt (it : Item) : Nat := it.alts.foldl (fun m a => max m a.length) 0
+
+theorem le_foldl_max (alts : List Alt) (init : Nat) : init ≤ alts.foldl (fun m a => max m a.length) init := by
+  induction alts generalizing init with
+  | nil => exact Nat.le_refl _
+  | cons a r ih => exact Nat.le_trans (Nat.le_max_left _ _) (ih _)
+
+theorem mem_le_maxAlt (alts : List Alt) (a : Alt) (h : a ∈ alts) (init : Nat) :
+    a.length ≤ alts.foldl (fun m x => max m x.length) init := by
+  induction alts generalizing init with
+  | nil => cases h
+  | cons x r ih =>
+    simp only [List.foldl_cons]
+    rcases List.mem_cons.mp h with rfl | h'
+    · exact Nat.le_trans (Nat.le_max_right _ _) (le_foldl_max r _)
+    · exact ih h' _
+
+/-- a pattern cannot consume more than the sum of its items' longest alternatives -/
+theorem matchItems_bound (items : List Item) : ∀ (s : Str) (caps : List (Field × Str)) (fin : Str),
+    matchItems items s = some (caps, fin) → s.length ≤ fin.length + (items.map maxAlt).sum := by
+  induction items with
+  | nil =>
+    intro s caps fin h
+    rw [matchItems_nil] at h
+    simp only [Option.some.injEq, Prod.mk.injEq] at h
+    simp [h.2]
+  | cons it r ih =>
+    intro s caps fin h
+    rw [matchItems_cons] at h
+    obtain ⟨a, ha, hl, caps', hk⟩ := matchAlts_some _ _ _ _ _ _ h
+    have := ih _ _ _ hk
+    have hmax := mem_le_maxAlt it.alts a ha 0
+    simp only [List.length_drop] at this
+    simp only [List.map_cons, List.sum_cons, maxAlt]
+    omega
+
+/-- a format whose items cannot reach the end of the text cannot convert it -/
+theorem strptime_too_short (text fmt : Str) (items : List Item) (hc : compileFmt fmt = some items)
+    (hlen : (items.map maxAlt).sum < text.length) : strptime text fmt = none := by
+  cases hm : matchItems items text with
+  | none => exact strptime_fail_of_match_none text fmt items hc hm
+  | some p =>
+    obtain ⟨caps, rest⟩ := p
+    have := matchItems_bound items text caps rest hm
+    have hne : rest ≠ [] := by
+      intro e; subst e; simp at this; omega
+    unfold strptime
+    rw [hc]
+    simp only [hm]
+    cases rest with
+    | nil => exact absurd rfl hne
+    | cons c t => simp
+
+end Pvl
+
+namespace Pvl
+open Py Enc
+
+/-! ### date fields followed by more pattern -/
+
+def litT : Item := ⟨.none, [[.lit 84]]⟩
+
+/-- an item all of whose alternatives take one or two characters fails when the rest of the pattern fails
+    after either split -/
+theorem short_item_none (it : Item) (hlen : ∀ a ∈ it.alts, a.length = 1 ∨ a.length = 2) (r : List Item)
+    (a b : Nat) (rest : Str) (h2 : matchItems r rest = none) (h1 : matchItems r (b :: rest) = none) :
+    matchItems (it :: r) (a :: b :: rest) = none := by
+  rw [matchItems_cons]
+  apply matchAlts_none_of_drops
+  intro x hx
+  rcases hlen x hx with e | e <;> rw [e] <;> simpa
+
+theorem itemm_short : ∀ a ∈ itemm.alts, a.length = 1 ∨ a.length = 2 := by decide
+theorem itemd_short : ∀ a ∈ itemd.alts, a.length = 1 ∨ a.length = 2 := by decide
+theorem itemH_short : ∀ a ∈ itemH.alts, a.length = 1 ∨ a.length = 2 := by decide
+theorem itemM_short : ∀ a ∈ itemM.alts, a.length = 1 ∨ a.length = 2 := by decide
+theorem itemS_short : ∀ a ∈ itemS.alts, a.length = 1 ∨ a.length = 2 := by decide
+
+theorem Y_field (y : Nat) (hy : y < 10000) (r : List Item) (rest fin : Str) (caps : List (Field × Str))
+    (hk : matchItems r rest = some (caps, fin)) :
+    matchItems (itemY :: r) (pad y 4 ++ rest) = some ((.Y, pad y 4) :: caps, fin) := by
+  rw [matchItems_cons, pad4 y hy]
+  have d1 := isDecimal_digit (y / 1000) (by omega)
+  have d2 := isDecimal_digit (y / 100 % 10) (Nat.mod_lt _ (by omega))
+  have d3 := isDecimal_digit (y / 10 % 10) (Nat.mod_lt _ (by omega))
+  have d4 := isDecimal_digit (y % 10) (Nat.mod_lt _ (by omega))
+  exact matchAlts_first _ _ _ _ _ _ rest fin caps (by simp [matchCCs, CC.ok, d1, d2, d3, d4]) hk
+
+theorem Y_field_none (y : Nat) (hy : y < 10000) (r : List Item) (rest : Str) (hk : matchItems r rest = none) :
+    matchItems (itemY :: r) (pad y 4 ++ rest) = none := by
+  rw [matchItems_cons]
+  apply matchAlts_none_of_drops
+  intro x hx
+  have : x = [CC.d, CC.d, CC.d, CC.d] := by simpa [itemY] using hx
+  subst this
+  have hl := length_pad y 4 (by omega) (by omega)
+  simpa [List.drop_append, hl] using hk
+
+theorem dash_field (r : List Item) (rest fin : Str) (caps : List (Field × Str))
+    (hk : matchItems r rest = some (caps, fin)) :
+    matchItems (litDash :: r) (45 :: rest) = some ((.none, [45]) :: caps, fin) :=
+  lit_field 45 (by decide) r rest fin caps hk
+
+theorem T_field (r : List Item) (rest fin : Str) (caps : List (Field × Str))
+    (hk : matchItems r rest = some (caps, fin)) :
+    matchItems (litT :: r) (84 :: rest) = some ((.none, [84]) :: caps, fin) := by
+  unfold litT
+  rw [matchItems_cons]
+  exact matchAlts_first _ _ _ _ _ [84] rest fin caps (by simp [matchCCs, CC.ok]) hk
+
+/-- `%m` on a zero-padded month -/
+theorem m_field (m : Nat) (hm1 : 1 ≤ m) (hm2 : m ≤ 12) (r : List Item) (rest fin : Str)
+    (caps : List (Field × Str)) (hk : matchItems r rest = some (caps, fin)) :
+    matchItems (itemm :: r) (pad m 2 ++ rest) = some ((.m, pad m 2) :: caps, fin) := by
+  rw [matchItems_cons, pad2 m (by omega)]
+  by_cases ha : 10 ≤ m
+  · have e1 : m / 10 = 1 := by omega
+    have e2 : m % 10 ≤ 2 := by omega
+    exact matchAlts_first _ _ _ _ _ _ rest fin caps (by simp [matchCCs, dg, ccr, e1]; omega) hk
+  · have e1 : m / 10 = 0 := by omega
+    have e2 : 1 ≤ m % 10 ∧ m % 10 ≤ 9 := by omega
+    unfold itemm
+    rw [matchAlts_skip _ _ _ _ _ (by simp [matchCCs, dg, ccr, e1])]
+    exact matchAlts_first _ _ _ _ _ _ rest fin caps (by simp [matchCCs, dg, ccr, e1]; omega) hk
+
+/-- `%d` on a zero-padded day -/
+theorem d_field (d : Nat) (h1 : 1 ≤ d) (h2 : d ≤ 31) (r : List Item) (rest fin : Str)
+    (caps : List (Field × Str)) (hk : matchItems r rest = some (caps, fin)) :
+    matchItems (itemd :: r) (pad d 2 ++ rest) = some ((.d, pad d 2) :: caps, fin) := by
+  rw [matchItems_cons, pad2 d (by omega)]
+  have hd := isDecimal_digit (d % 10) (Nat.mod_lt _ (by omega))
+  by_cases ha : 30 ≤ d
+  · have e1 : d / 10 = 3 := by omega
+    have e2 : d % 10 ≤ 1 := by omega
+    exact matchAlts_first _ _ _ _ _ _ rest fin caps (by simp [matchCCs, dg, ccr, e1]; omega) hk
+  · by_cases hb : 10 ≤ d
+    · have e1 : d / 10 = 1 ∨ d / 10 = 2 := by omega
+      unfold itemd
+      rw [matchAlts_skip _ _ _ _ _ (by rcases e1 with e1 | e1 <;> simp [matchCCs, dg, ccr, e1])]
+      exact matchAlts_first _ _ _ _ _ _ rest fin caps
+        (by rcases e1 with e1 | e1 <;> simp [matchCCs, dg, ccr, e1, CC.ok, hd]) hk
+    · have e1 : d / 10 = 0 := by omega
+      have e2 : 1 ≤ d % 10 ∧ d % 10 ≤ 9 := by omega
+      unfold itemd
+      rw [matchAlts_skip _ _ _ _ _ (by simp [matchCCs, dg, ccr, e1])]
+      rw [matchAlts_skip _ _ _ _ _ (by simp [matchCCs, dg, ccr, e1])]
+      exact matchAlts_first _ _ _ _ _ _ rest fin caps (by simp [matchCCs, dg, ccr, e1]; omega) hk
+
+end Pvl
+
+namespace Pvl
+open Py Enc
+
+/-! ### `YYYY-MM-DDT…` -/
+
+/-- the date part of a date-time pattern, followed by `r` -/
+def D5 (r : List Item) : List Item := itemY :: litDash :: itemm :: litDash :: itemd :: litT :: r
+
+def dateCaps (y m d : Nat) : List (Field × Str) :=
+  [(.Y, pad y 4), (.none, [45]), (.m, pad m 2), (.none, [45]), (.d, pad d 2), (.none, [84])]
+
+/-- the text of a date followed by `T` and more -/
+def dateT (y m d : Nat) (rest : Str) : Str := pad y 4 ++ 45 :: (pad m 2 ++ 45 :: (pad d 2 ++ 84 :: rest))
+
+theorem date_prefix (y m d : Nat) (hy : y < 10000) (hm1 : 1 ≤ m) (hm2 : m ≤ 12) (hd1 : 1 ≤ d) (hd2 : d ≤ 31)
+    (r : List Item) (rest fin : Str) (caps : List (Field × Str)) (hk : matchItems r rest = some (caps, fin)) :
+    matchItems (D5 r) (dateT y m d rest) = some (dateCaps y m d ++ caps, fin) :=
+  Y_field y hy _ _ _ _ (dash_field _ _ _ _ (m_field m hm1 hm2 _ _ _ _ (dash_field _ _ _ _
+    (d_field d hd1 hd2 _ _ _ _ (T_field _ _ _ _ hk)))))
+
+theorem pad2_digit2 (n : Nat) (h : n < 100) (rest : Str) :
+    pad n 2 ++ rest = (48 + n / 10) :: (48 + n % 10) :: rest := pad2_cons n h rest
+
+theorem lower_digit (k : Nat) (hk : k < 10) : lowerAscii1 (48 + k) = 48 + k := by
+  simp [lowerAscii1]; omega
+theorem d45 : ∀ k, k < 10 → lowerAscii1 (48 + k) ≠ lowerAscii1 45 := by
+  intro k hk; rw [lower_digit k hk]; have : lowerAscii1 45 = 45 := by decide
+  rw [this]; omega
+theorem d84 : ∀ k, k < 10 → lowerAscii1 (48 + k) ≠ lowerAscii1 84 := by
+  intro k hk; rw [lower_digit k hk]; have : lowerAscii1 84 = 116 := by decide
+  rw [this]; omega
+
+theorem lit_cont_none' (ch : Nat) (r : List Item) (rest : Str)
+    (hk : matchItems r rest = none) : matchItems (⟨.none, [[.lit ch]]⟩ :: r) (ch :: rest) = none := by
+  rw [matchItems_cons]
+  rw [matchAlts_cont_none _ _ _ _ _ [ch] rest (by simp [matchCCs, CC.ok]) hk]
+  exact matchAlts_nil _ _ _
+
+/-- if the rest of the pattern fails after the `T`, the whole date-time pattern fails (whatever way the
+    month and day digits are split) -/
+theorem date_prefix_none (y m d : Nat) (hy : y < 10000) (hm2 : m ≤ 12) (hd2 : d ≤ 31)
+    (r : List Item) (rest : Str) (hk : matchItems r rest = none) :
+    matchItems (D5 r) (dateT y m d rest) = none := by
+  unfold D5 dateT
+  apply Y_field_none y hy
+  apply lit_cont_none 45 (by decide)
+  rw [pad2_digit2 m (by omega)]
+  apply short_item_none itemm itemm_short
+  · apply lit_cont_none 45 (by decide)
+    rw [pad2_digit2 d (by omega)]
+    apply short_item_none itemd itemd_short
+    · exact lit_cont_none' 84 _ _ hk
+    · exact lit_fail 84 _ (d84 _ (Nat.mod_lt _ (by omega))) _ _
+  · exact lit_fail 45 _ (d45 _ (Nat.mod_lt _ (by omega))) _ _
+
+/-- the date formats cannot convert a date-time text: they stop short of its end -/
+theorem date_formats_fail (g : Grammar)
+    (hg : g.dateFormats.all (fun f => match compileFmt f with
+      | some items => decide ((items.map maxAlt).sum ≤ 11) | none => true) = true)
+    (text : Str) (hlen : 12 ≤ text.length) : firstSome (strptime text) g.dateFormats = none := by
+  apply firstSome_none
+  intro f hf
+  have := (List.all_eq_true.mp hg) f hf
+  cases hc : compileFmt f with
+  | none => unfold strptime; simp [hc]
+  | some items =>
+    rw [hc] at this
+    simp only [decide_eq_true_eq] at this
+    exact strptime_too_short text f items hc (by omega)
+
+/-- a format that begins `%H:` cannot match a text that begins with three digits -/
+theorem strptime_Hcolon_fails (a b c : Nat) (t f' : Str) (ha : a < 10) (hb : b < 10) (hcc : c < 10) :
+    strptime ((48 + a) :: (48 + b) :: (48 + c) :: t) (37 :: 72 :: 58 :: f') = none := by
+  cases hc : compileFmt f' with
+  | none => unfold strptime; simp [compileFmt, hc]
+  | some rest =>
+    have hcomp : compileFmt (37 :: 72 :: 58 :: f') = some (itemH :: litColon :: rest) := by
+      simp [compileFmt, hc, litColon]
+    apply strptime_fail_of_match_none _ _ _ hcomp
+    apply short_item_none itemH itemH_short
+    · exact lit_fail 58 _ (d58 c hcc) _ _
+    · exact lit_fail 58 _ (d58 b hb) _ _
+
+end Pvl
+
+namespace Pvl
+open Py Enc
+
+def fmtDT (tf : Str) : Str := fmtYmd ++ 84 :: tf
+
+theorem compile_DT_HM : compileFmt (fmtDT fmtHM) = some (D5 [itemH, litColon, itemM]) := by
+  simp [fmtDT, fmtYmd, fmtHM, compileFmt, D5, litDash, litT, litColon]
+theorem compile_DT_HMZ : compileFmt (fmtDT fmtHMZ) = some (D5 [itemH, litColon, itemM, litZ]) := by
+  simp [fmtDT, fmtYmd, fmtHMZ, fmtHM, compileFmt, D5, litDash, litT, litColon, litZ]
+theorem compile_DT_HMS : compileFmt (fmtDT fmtHMS) = some (D5 [itemH, litColon, itemM, litColon, itemS]) := by
+  simp [fmtDT, fmtYmd, fmtHMS, compileFmt, D5, litDash, litT, litColon]
+theorem compile_DT_HMSZ :
+    compileFmt (fmtDT fmtHMSZ) = some (D5 [itemH, litColon, itemM, litColon, itemS, litZ]) := by
+  simp [fmtDT, fmtYmd, fmtHMSZ, fmtHMS, compileFmt, D5, litDash, litT, litColon, litZ]
+theorem compile_DT_HMSf :
+    compileFmt (fmtDT fmtHMSf) = some (D5 [itemH, litColon, itemM, litColon, itemS, litDot, itemf]) := by
+  simp [fmtDT, fmtYmd, fmtHMSf, compileFmt, D5, litDash, litT, litColon, litDot]
+theorem compile_DT_HMSfZ :
+    compileFmt (fmtDT fmtHMSfZ) = some (D5 [itemH, litColon, itemM, litColon, itemS, litDot, itemf, litZ]) := by
+  simp [fmtDT, fmtYmd, fmtHMSfZ, fmtHMSf, compileFmt, D5, litDash, litT, litColon, litDot, litZ]
+
+/-- a pattern that matches but leaves text unconverted -/
+theorem strptime_leaves (text fmt : Str) (items : List Item) (hc : compileFmt fmt = some items)
+    (caps : List (Field × Str)) (c : Nat) (rest : Str) (hm : matchItems items text = some (caps, c :: rest)) :
+    strptime text fmt = none := by
+  unfold strptime; rw [hc]; simp [hm]
+
+/-- the calendar facts `strptime` checks, for a valid date -/
+theorem date_checks (y m d : Nat) (h : ValidDate y m d) :
+    (y == 0 || decide (y > 9999)) = false ∧
+    (decide (1 ≤ m) && decide (m ≤ 12) && decide (1 ≤ d) && decide (d ≤ daysInMonth y m)) = true := by
+  obtain ⟨hy1, hy2, hm1, hm2, hd1, hd2⟩ := h
+  refine ⟨by simp; omega, by simp [hm1, hm2, hd1, hd2]⟩
+
+theorem strptime_DT_HM (y m d h mi : Nat) (hd : ValidDate y m d) (hh : h < 24) (hm : mi < 60) :
+    strptime (dateT y m d (pad h 2 ++ 58 :: pad mi 2)) (fmtDT fmtHM) = some ⟨y, m, d, h, mi, 0, 0⟩ := by
+  obtain ⟨e1, e2⟩ := date_checks y m d hd
+  obtain ⟨hy1, hy2, hm1, hm2, hd1, hd2⟩ := hd
+  have hd3 := daysInMonth_le y m
+  unfold strptime
+  rw [compile_DT_HM]
+  have hm' := match_HM h mi hh hm []
+  simp only [List.append_nil] at hm'
+  simp only [date_prefix y m d (by omega) hm1 hm2 hd1 (by omega) _ _ _ _ hm']
+  simp [dateCaps, field?, List.find?, field_beq, natOf_pad, e1, e2]
+
+theorem strptime_DT_HMS (y m d h mi s : Nat) (hd : ValidDate y m d) (hh : h < 24) (hm : mi < 60) (hs : s < 60) :
+    strptime (dateT y m d (pad h 2 ++ 58 :: (pad mi 2 ++ 58 :: pad s 2))) (fmtDT fmtHMS) =
+      some ⟨y, m, d, h, mi, s, 0⟩ := by
+  obtain ⟨e1, e2⟩ := date_checks y m d hd
+  obtain ⟨hy1, hy2, hm1, hm2, hd1, hd2⟩ := hd
+  have hd3 := daysInMonth_le y m
+  unfold strptime
+  rw [compile_DT_HMS]
+  have hm' := match_HMS h mi s hh hm hs []
+  simp only [List.append_nil] at hm'
+  simp only [date_prefix y m d (by omega) hm1 hm2 hd1 (by omega) _ _ _ _ hm']
+  have e : ¬ s > 59 := by omega
+  simp [dateCaps, field?, List.find?, field_beq, natOf_pad, e1, e2, e]
+
+theorem strptime_DT_HMSf (y m d h mi s us : Nat) (hd : ValidDate y m d) (hh : h < 24) (hm : mi < 60)
+    (hs : s < 60) (hus : us < 1000000) :
+    strptime (dateT y m d (pad h 2 ++ 58 :: (pad mi 2 ++ 58 :: (pad s 2 ++ 46 :: pad us 6)))) (fmtDT fmtHMSf) =
+      some ⟨y, m, d, h, mi, s, us⟩ := by
+  obtain ⟨e1, e2⟩ := date_checks y m d hd
+  obtain ⟨hy1, hy2, hm1, hm2, hd1, hd2⟩ := hd
+  have hd3 := daysInMonth_le y m
+  unfold strptime
+  rw [compile_DT_HMSf]
+  have hm' := match_HMSf h mi s us hh hm hs hus
+  simp only [List.append_nil] at hm'
+  simp only [date_prefix y m d (by omega) hm1 hm2 hd1 (by omega) _ _ _ _ hm']
+  have e : ¬ s > 59 := by omega
+  have hl := length_pad us 6 (by omega) (by omega)
+  simp [dateCaps, field?, List.find?, field_beq, natOf_pad, e1, e2, e, hl]
+
+end Pvl
+
+namespace Pvl
+open Py Enc
+
+/-- what the date-time theorems need of a grammar's format tables -/
+def DtTablesOK (g : Grammar) : Bool :=
+  g.dateFormats.all (fun f => match compileFmt f with
+    | some items => decide ((items.map maxAlt).sum ≤ 11) | none => true) &&
+  g.timeFormats.all (fun f => f.take 3 == [37, 72, 58]) &&
+  g.datetimeFormats.take 6 == [fmtDT fmtHM, fmtDT fmtHMZ, fmtDT fmtHMS, fmtDT fmtHMSZ, fmtDT fmtHMSf, fmtDT fmtHMSfZ]
+
+theorem time_formats_fail (g : Grammar) (hg : g.timeFormats.all (fun f => f.take 3 == [37, 72, 58]) = true)
+    (a b c : Nat) (ha : a < 10) (hb : b < 10) (hc : c < 10) (t : Str) :
+    firstSome (strptime ((48 + a) :: (48 + b) :: (48 + c) :: t)) g.timeFormats = none := by
+  apply firstSome_none
+  intro f hf
+  have h3 := (List.all_eq_true.mp hg) f hf
+  match f, h3 with
+  | 37 :: 72 :: 58 :: f', _ => exact strptime_Hcolon_fails a b c t f' ha hb hc
+  | [], h3 => simp at h3
+  | [_], h3 => simp at h3
+  | [_, _], h3 => simp at h3
+  | x :: y :: z :: f', h3 =>
+    simp at h3
+    obtain ⟨rfl, rfl, rfl⟩ := h3
+    exact strptime_Hcolon_fails a b c t f' ha hb hc
+
+theorem dateT_length (y m d : Nat) (hy : y < 10000) (hm : m < 100) (hd : d < 100) (rest : Str) :
+    (dateT y m d rest).length = 11 + rest.length := by
+  unfold dateT
+  rw [pad4 y hy, pad2 m hm, pad2 d hd]
+  simp; omega
+
+theorem dateT_head3 (y m d : Nat) (hy : y < 10000) (rest : Str) :
+    dateT y m d rest = (48 + y / 1000) :: (48 + y / 100 % 10) :: (48 + y / 10 % 10) ::
+      ((48 + y % 10) :: 45 :: (pad m 2 ++ 45 :: (pad d 2 ++ 84 :: rest))) := by
+  unfold dateT; rw [pad4 y hy]; rfl
+
+/-- **`decode_datetime` reads `YYYY-MM-DDTHH:MM[:SS[.ffffff]]`** as that date and time, in the dialect's
+    default zone -/
+theorem decodeDatetimeBase_datetime (g : Grammar) (hg : DtTablesOK g = true) (y m d h mi s us : Nat)
+    (hd : ValidDate y m d) (hv : ValidTime h mi s us) :
+    decodeDatetimeBase g (dateT y m d (encodeTimeBase h mi s us)) =
+      some (.datetime y m d h mi s us (defaultTz g)) := by
+  obtain ⟨hh, hm, hs, hus⟩ := hv
+  have hd' := hd
+  obtain ⟨hy1, hy2, hm1, hm2, hd1, hd2⟩ := hd'
+  have hd3 := daysInMonth_le y m
+  simp only [DtTablesOK, Bool.and_eq_true, beq_iff_eq] at hg
+  obtain ⟨⟨hgd, hgt⟩, hgdt⟩ := hg
+  have hdt : ∃ r, g.datetimeFormats = fmtDT fmtHM :: fmtDT fmtHMZ :: fmtDT fmtHMS :: fmtDT fmtHMSZ ::
+      fmtDT fmtHMSf :: fmtDT fmtHMSfZ :: r := by
+    match hl : g.datetimeFormats, hgdt with
+    | a :: b :: c :: d' :: e :: f :: r, h6 =>
+      simp at h6
+      obtain ⟨rfl, rfl, rfl, rfl, rfl, rfl⟩ := h6
+      exact ⟨r, rfl⟩
+    | [], h6 => simp at h6
+    | [_], h6 => simp at h6
+    | [_, _], h6 => simp at h6
+    | [_, _, _], h6 => simp at h6
+    | [_, _, _, _], h6 => simp at h6
+    | [_, _, _, _, _], h6 => simp at h6
+  obtain ⟨r, hdt⟩ := hdt
+  have hlen : 12 ≤ (dateT y m d (encodeTimeBase h mi s us)).length := by
+    rw [dateT_length y m d (by omega) (by omega) (by omega)]
+    have : 0 < (encodeTimeBase h mi s us).length := by
+      rw [encodeTimeBase_eq]
+      have := length_pad h 2 (by omega) (by omega)
+      simp; omega
+    omega
+  have hz : endsWith (dateT y m d (encodeTimeBase h mi s us)) [90] = false := by
+    have e : dateT y m d (encodeTimeBase h mi s us) =
+        (pad y 4 ++ 45 :: (pad m 2 ++ 45 :: (pad d 2 ++ [84]))) ++ encodeTimeBase h mi s us := by
+      simp [dateT]
+    rw [e, encodeTimeBase_eq]
+    unfold timeTail
+    split
+    · have : (pad y 4 ++ 45 :: (pad m 2 ++ 45 :: (pad d 2 ++ [84]))) ++ (pad h 2 ++ 58 :: (pad mi 2 ++ 58 :: (pad s 2 ++ 46 :: pad us 6))) =
+          ((pad y 4 ++ 45 :: (pad m 2 ++ 45 :: (pad d 2 ++ [84]))) ++ (pad h 2 ++ 58 :: (pad mi 2 ++ 58 :: (pad s 2 ++ [46])))) ++ pad us 6 := by simp
+      rw [this]; exact endsWith_digits _ _ (pad_ne_nil us 6) (allDigits_pad us 6)
+    · split
+      · have : (pad y 4 ++ 45 :: (pad m 2 ++ 45 :: (pad d 2 ++ [84]))) ++ (pad h 2 ++ 58 :: (pad mi 2 ++ 58 :: pad s 2)) =
+            ((pad y 4 ++ 45 :: (pad m 2 ++ 45 :: (pad d 2 ++ [84]))) ++ (pad h 2 ++ 58 :: (pad mi 2 ++ [58]))) ++ pad s 2 := by simp
+        rw [this]; exact endsWith_digits _ _ (pad_ne_nil s 2) (allDigits_pad s 2)
+      · have : (pad y 4 ++ 45 :: (pad m 2 ++ 45 :: (pad d 2 ++ [84]))) ++ (pad h 2 ++ 58 :: (pad mi 2 ++ [])) =
+            ((pad y 4 ++ 45 :: (pad m 2 ++ 45 :: (pad d 2 ++ [84]))) ++ (pad h 2 ++ [58])) ++ pad mi 2 := by simp
+        rw [this]; exact endsWith_digits _ _ (pad_ne_nil mi 2) (allDigits_pad mi 2)
+  unfold decodeDatetimeBase
+  rw [date_formats_fail g hgd _ hlen]
+  simp only [hz, Bool.false_eq_true, if_false]
+  have htimes : firstSome (strptime (dateT y m d (encodeTimeBase h mi s us))) g.timeFormats = none := by
+    rw [dateT_head3 y m d (by omega)]
+    exact time_formats_fail g hgt _ _ _ (by omega) (Nat.mod_lt _ (by omega)) (Nat.mod_lt _ (by omega)) _
+  rw [htimes, hdt, encodeTimeBase_eq]
+  unfold timeTail
+  by_cases h1 : us = 0
+  · by_cases h2 : s = 0
+    · subst h1 h2
+      simp only [bne_self_eq_false, Bool.false_eq_true, if_false, List.append_nil]
+      rw [firstSome_cons_some _ _ _ _ (strptime_DT_HM y m d h mi hd hh hm)]
+      simp [defaultTz]
+    · subst h1
+      have hsne : (s != 0) = true := by simp [h2]
+      simp only [bne_self_eq_false, Bool.false_eq_true, if_false, hsne, if_true]
+      rw [firstSome_cons_none _ _ _ (strptime_leaves _ _ _ compile_DT_HM _ 58 (pad s 2)
+        (date_prefix y m d (by omega) hm1 hm2 hd1 (by omega) _ _ _ _ (match_HM h mi hh hm (58 :: pad s 2))))]
+      rw [firstSome_cons_none _ _ _ (strptime_fail_of_match_none _ _ _ compile_DT_HMZ
+        (date_prefix_none y m d (by omega) hm2 (by omega) _ _
+          (HM_then_lit_fail h mi hh hm 90 dZ [] 58 (pad s 2) (by decide))))]
+      rw [firstSome_cons_some _ _ _ _ (strptime_DT_HMS y m d h mi s hd hh hm hs)]
+      simp [defaultTz]
+  · have hune : (us != 0) = true := by simp [h1]
+    simp only [hune, if_true]
+    rw [firstSome_cons_none _ _ _ (strptime_leaves _ _ _ compile_DT_HM _ 58 (pad s 2 ++ 46 :: pad us 6)
+      (date_prefix y m d (by omega) hm1 hm2 hd1 (by omega) _ _ _ _
+        (match_HM h mi hh hm (58 :: (pad s 2 ++ 46 :: pad us 6)))))]
+    rw [firstSome_cons_none _ _ _ (strptime_fail_of_match_none _ _ _ compile_DT_HMZ
+      (date_prefix_none y m d (by omega) hm2 (by omega) _ _
+        (HM_then_lit_fail h mi hh hm 90 dZ [] 58 (pad s 2 ++ 46 :: pad us 6) (by decide))))]
+    rw [firstSome_cons_none _ _ _ (strptime_leaves _ _ _ compile_DT_HMS _ 46 (pad us 6)
+      (date_prefix y m d (by omega) hm1 hm2 hd1 (by omega) _ _ _ _
+        (match_HMS h mi s hh hm hs (46 :: pad us 6))))]
+    rw [firstSome_cons_none _ _ _ (strptime_fail_of_match_none _ _ _ compile_DT_HMSZ
+      (date_prefix_none y m d (by omega) hm2 (by omega) _ _
+        (HMS_then_lit_fail h mi s hh hm hs 90 dZ [] 46 (pad us 6) (by decide))))]
+    rw [firstSome_cons_some _ _ _ _ (strptime_DT_HMSf y m d h mi s us hd hh hm hs hus)]
+    simp [defaultTz]
+
+end Pvl
+
+namespace Pvl
+open Py Enc
+
+theorem match_HMSf_rest (h mi s us : Nat) (hh : h < 24) (hm : mi < 60) (hs : s < 60) (hus : us < 1000000)
+    (rest : Str) :
+    matchItems [itemH, litColon, itemM, litColon, itemS, litDot, itemf]
+        (pad h 2 ++ 58 :: (pad mi 2 ++ 58 :: (pad s 2 ++ 46 :: (pad us 6 ++ rest)))) =
+      some ([(.H, pad h 2), (.none, [58]), (.M, pad mi 2), (.none, [58]), (.S, pad s 2), (.none, [46]),
+        (.f, pad us 6)], rest) :=
+  H_field h hh _ _ _ _ (colon_field _ _ _ _ (M_field mi hm _ _ _ _ (colon_field _ _ _ _
+    (S_field s hs _ _ _ _ (dot_field _ _ _ _ (f_field us hus _ _ _ _ (matchItems_nil rest)))))))
+
+theorem strptime_DT_HMZ (y m d h mi : Nat) (hd : ValidDate y m d) (hh : h < 24) (hm : mi < 60) :
+    strptime (dateT y m d (pad h 2 ++ 58 :: (pad mi 2 ++ [90]))) (fmtDT fmtHMZ) = some ⟨y, m, d, h, mi, 0, 0⟩ := by
+  obtain ⟨e1, e2⟩ := date_checks y m d hd
+  obtain ⟨hy1, hy2, hm1, hm2, hd1, hd2⟩ := hd
+  have hd3 := daysInMonth_le y m
+  unfold strptime
+  rw [compile_DT_HMZ]
+  have hm' : matchItems [itemH, litColon, itemM, litZ] (pad h 2 ++ 58 :: (pad mi 2 ++ [90])) =
+      some ([(.H, pad h 2), (.none, [58]), (.M, pad mi 2), (.none, [90])], []) :=
+    H_field h hh _ _ _ _ (colon_field _ _ _ _ (M_field mi hm _ _ _ _ (Z_field _ _ _ _ (matchItems_nil []))))
+  simp only [date_prefix y m d (by omega) hm1 hm2 hd1 (by omega) _ _ _ _ hm']
+  simp [dateCaps, field?, List.find?, field_beq, natOf_pad, e1, e2]
+
+theorem strptime_DT_HMSZ (y m d h mi s : Nat) (hd : ValidDate y m d) (hh : h < 24) (hm : mi < 60) (hs : s < 60) :
+    strptime (dateT y m d (pad h 2 ++ 58 :: (pad mi 2 ++ 58 :: (pad s 2 ++ [90])))) (fmtDT fmtHMSZ) =
+      some ⟨y, m, d, h, mi, s, 0⟩ := by
+  obtain ⟨e1, e2⟩ := date_checks y m d hd
+  obtain ⟨hy1, hy2, hm1, hm2, hd1, hd2⟩ := hd
+  have hd3 := daysInMonth_le y m
+  unfold strptime
+  rw [compile_DT_HMSZ]
+  have hm' : matchItems [itemH, litColon, itemM, litColon, itemS, litZ]
+      (pad h 2 ++ 58 :: (pad mi 2 ++ 58 :: (pad s 2 ++ [90]))) =
+      some ([(.H, pad h 2), (.none, [58]), (.M, pad mi 2), (.none, [58]), (.S, pad s 2), (.none, [90])], []) :=
+    H_field h hh _ _ _ _ (colon_field _ _ _ _ (M_field mi hm _ _ _ _ (colon_field _ _ _ _
+      (S_field s hs _ _ _ _ (Z_field _ _ _ _ (matchItems_nil []))))))
+  simp only [date_prefix y m d (by omega) hm1 hm2 hd1 (by omega) _ _ _ _ hm']
+  have e : ¬ s > 59 := by omega
+  simp [dateCaps, field?, List.find?, field_beq, natOf_pad, e1, e2, e]
+
+theorem strptime_DT_HMSfZ (y m d h mi s us : Nat) (hd : ValidDate y m d) (hh : h < 24) (hm : mi < 60)
+    (hs : s < 60) (hus : us < 1000000) :
+    strptime (dateT y m d (pad h 2 ++ 58 :: (pad mi 2 ++ 58 :: (pad s 2 ++ 46 :: (pad us 6 ++ [90])))))
+      (fmtDT fmtHMSfZ) = some ⟨y, m, d, h, mi, s, us⟩ := by
+  obtain ⟨e1, e2⟩ := date_checks y m d hd
+  obtain ⟨hy1, hy2, hm1, hm2, hd1, hd2⟩ := hd
+  have hd3 := daysInMonth_le y m
+  unfold strptime
+  rw [compile_DT_HMSfZ]
+  have hm' : matchItems [itemH, litColon, itemM, litColon, itemS, litDot, itemf, litZ]
+      (pad h 2 ++ 58 :: (pad mi 2 ++ 58 :: (pad s 2 ++ 46 :: (pad us 6 ++ [90])))) =
+      some ([(.H, pad h 2), (.none, [58]), (.M, pad mi 2), (.none, [58]), (.S, pad s 2), (.none, [46]),
+        (.f, pad us 6), (.none, [90])], []) :=
+    H_field h hh _ _ _ _ (colon_field _ _ _ _ (M_field mi hm _ _ _ _ (colon_field _ _ _ _
+      (S_field s hs _ _ _ _ (dot_field _ _ _ _ (f_field us hus _ _ _ _ (Z_field _ _ _ _ (matchItems_nil []))))))))
+  simp only [date_prefix y m d (by omega) hm1 hm2 hd1 (by omega) _ _ _ _ hm']
+  have e : ¬ s > 59 := by omega
+  have hl := length_pad us 6 (by omega) (by omega)
+  simp [dateCaps, field?, List.find?, field_beq, natOf_pad, e1, e2, e, hl]
+
+/-- **`decode_datetime` reads `YYYY-MM-DDTHH:MM[:SS[.ffffff]]Z`** as that date and time in UTC -/
+theorem decodeDatetimeBase_datetimeZ (g : Grammar) (hg : DtTablesOK g = true) (y m d h mi s us : Nat)
+    (hd : ValidDate y m d) (hv : ValidTime h mi s us) :
+    decodeDatetimeBase g (dateT y m d (encodeTimeBase h mi s us ++ [90])) =
+      some (.datetime y m d h mi s us (some 0)) := by
+  obtain ⟨hh, hm, hs, hus⟩ := hv
+  have hd' := hd
+  obtain ⟨hy1, hy2, hm1, hm2, hd1, hd2⟩ := hd'
+  have hd3 := daysInMonth_le y m
+  simp only [DtTablesOK, Bool.and_eq_true, beq_iff_eq] at hg
+  obtain ⟨⟨hgd, hgt⟩, hgdt⟩ := hg
+  have hdt : ∃ r, g.datetimeFormats = fmtDT fmtHM :: fmtDT fmtHMZ :: fmtDT fmtHMS :: fmtDT fmtHMSZ ::
+      fmtDT fmtHMSf :: fmtDT fmtHMSfZ :: r := by
+    match hl : g.datetimeFormats, hgdt with
+    | a :: b :: c :: d' :: e :: f :: r, h6 =>
+      simp at h6
+      obtain ⟨rfl, rfl, rfl, rfl, rfl, rfl⟩ := h6
+      exact ⟨r, rfl⟩
+    | [], h6 => simp at h6
+    | [_], h6 => simp at h6
+    | [_, _], h6 => simp at h6
+    | [_, _, _], h6 => simp at h6
+    | [_, _, _, _], h6 => simp at h6
+    | [_, _, _, _, _], h6 => simp at h6
+  obtain ⟨r, hdt⟩ := hdt
+  have hlen : 12 ≤ (dateT y m d (encodeTimeBase h mi s us ++ [90])).length := by
+    rw [dateT_length y m d (by omega) (by omega) (by omega)]; simp; omega
+  have hz : endsWith (dateT y m d (encodeTimeBase h mi s us ++ [90])) [90] = true := by
+    have e : dateT y m d (encodeTimeBase h mi s us ++ [90]) =
+        (pad y 4 ++ 45 :: (pad m 2 ++ 45 :: (pad d 2 ++ 84 :: encodeTimeBase h mi s us))) ++ [90] := by
+      simp [dateT]
+    rw [e]; exact endsWith_snoc _ 90
+  unfold decodeDatetimeBase
+  rw [date_formats_fail g hgd _ hlen]
+  simp only [hz, if_true]
+  have htimes : firstSome (strptime (dateT y m d (encodeTimeBase h mi s us ++ [90]))) g.timeFormats = none := by
+    rw [dateT_head3 y m d (by omega)]
+    exact time_formats_fail g hgt _ _ _ (by omega) (Nat.mod_lt _ (by omega)) (Nat.mod_lt _ (by omega)) _
+  rw [htimes, hdt, encodeTimeBase_eq]
+  unfold timeTail
+  by_cases h1 : us = 0
+  · by_cases h2 : s = 0
+    · subst h1 h2
+      simp only [bne_self_eq_false, Bool.false_eq_true, if_false, List.append_nil, List.append_assoc,
+        List.cons_append]
+      rw [firstSome_cons_none _ _ _ (strptime_leaves _ _ _ compile_DT_HM _ 90 []
+        (date_prefix y m d (by omega) hm1 hm2 hd1 (by omega) _ _ _ _ (match_HM h mi hh hm [90])))]
+      rw [firstSome_cons_some _ _ _ _ (strptime_DT_HMZ y m d h mi hd hh hm)]
+    · subst h1
+      have hsne : (s != 0) = true := by simp [h2]
+      simp only [bne_self_eq_false, Bool.false_eq_true, if_false, hsne, if_true, List.append_assoc,
+        List.cons_append]
+      rw [firstSome_cons_none _ _ _ (strptime_leaves _ _ _ compile_DT_HM _ 58 (pad s 2 ++ [90])
+        (date_prefix y m d (by omega) hm1 hm2 hd1 (by omega) _ _ _ _ (match_HM h mi hh hm (58 :: (pad s 2 ++ [90])))))]
+      rw [firstSome_cons_none _ _ _ (strptime_fail_of_match_none _ _ _ compile_DT_HMZ
+        (date_prefix_none y m d (by omega) hm2 (by omega) _ _
+          (HM_then_lit_fail h mi hh hm 90 dZ [] 58 (pad s 2 ++ [90]) (by decide))))]
+      rw [firstSome_cons_none _ _ _ (strptime_leaves _ _ _ compile_DT_HMS _ 90 []
+        (date_prefix y m d (by omega) hm1 hm2 hd1 (by omega) _ _ _ _ (match_HMS h mi s hh hm hs [90])))]
+      rw [firstSome_cons_some _ _ _ _ (strptime_DT_HMSZ y m d h mi s hd hh hm hs)]
+  · have hune : (us != 0) = true := by simp [h1]
+    simp only [hune, if_true, List.append_assoc, List.cons_append]
+    rw [firstSome_cons_none _ _ _ (strptime_leaves _ _ _ compile_DT_HM _ 58 (pad s 2 ++ 46 :: (pad us 6 ++ [90]))
+      (date_prefix y m d (by omega) hm1 hm2 hd1 (by omega) _ _ _ _
+        (match_HM h mi hh hm (58 :: (pad s 2 ++ 46 :: (pad us 6 ++ [90]))))))]
+    rw [firstSome_cons_none _ _ _ (strptime_fail_of_match_none _ _ _ compile_DT_HMZ
+      (date_prefix_none y m d (by omega) hm2 (by omega) _ _
+        (HM_then_lit_fail h mi hh hm 90 dZ [] 58 (pad s 2 ++ 46 :: (pad us 6 ++ [90])) (by decide))))]
+    rw [firstSome_cons_none _ _ _ (strptime_leaves _ _ _ compile_DT_HMS _ 46 (pad us 6 ++ [90])
+      (date_prefix y m d (by omega) hm1 hm2 hd1 (by omega) _ _ _ _
+        (match_HMS h mi s hh hm hs (46 :: (pad us 6 ++ [90])))))]
+    rw [firstSome_cons_none _ _ _ (strptime_fail_of_match_none _ _ _ compile_DT_HMSZ
+      (date_prefix_none y m d (by omega) hm2 (by omega) _ _
+        (HMS_then_lit_fail h mi s hh hm hs 90 dZ [] 46 (pad us 6 ++ [90]) (by decide))))]
+    rw [firstSome_cons_none _ _ _ (strptime_leaves _ _ _ compile_DT_HMSf _ 90 []
+      (date_prefix y m d (by omega) hm1 hm2 hd1 (by omega) _ _ _ _
+        (match_HMSf_rest h mi s us hh hm hs hus [90])))]
+    rw [firstSome_cons_some _ _ _ _ (strptime_DT_HMSfZ y m d h mi s us hd hh hm hs hus)]
+
+end Pvl
